@@ -140,158 +140,174 @@ def run(ctx):
         ok, _ = ctx.coq_build(["C06/ResetComplete.vo"])
         if ok:
             try:
-                unclassified, fs, cur = ctx.coq_eval("oblig", PRE, ["unclassified", "failed_shapes", "hand_lists_current_b"])
+                unclassified, fs, cur, slotu = ctx.coq_eval("oblig", PRE, ["unclassified", "failed_shapes", "hand_lists_current_b", "slot_ctor_unreviewed"])
                 ctx.broken_proof["unclassified_state_fields"] = unclassified
                 ctx.broken_proof["failed_shapes"] = fs
                 ctx.broken_proof["hand_lists_current"] = cur
+                ctx.broken_proof["slot_constructions_unreviewed"] = slotu
             except Exception as ex:    # keep going: the replays below still run
                 ctx.notes.append("could not evaluate obligations: %s" % ex)
 
-    # ---- 3. replays ------------------------------------------------------------
-    ctx.build_libs(["testcel_celeritas"])
-    exe = ctx.compile_harness([os.path.join(HERE, "harness", "replay.cc")], "replay", libs=LIBS, test_includes=True)
-    R = Runner(ctx, exe)
-    rng = ctx.rng
+    def replays():
+        # ---- 3. replays ------------------------------------------------------------
+        ctx.build_libs(["testcel_celeritas"])
+        exe = ctx.compile_harness([os.path.join(HERE, "harness", "replay.cc")], "replay", libs=LIBS, test_includes=True)
+        R = Runner(ctx, exe)
+        rng = ctx.rng
 
-    if quick:
-        combos = [("simple", 8), ("simple", 1), ("simple", 33), ("linear", 5), ("mock", 6)]
-        n_events, n_hist, n_cfg = 4, 5, 10
-    else:
-        combos = [("simple", s) for s in (1, 2, 8, 33, 128)] + [("linear", s) for s in (1, 5, 64)] + [("mock", s) for s in (1, 6, 40)]
-        n_events, n_hist, n_cfg = 10, 60, 120
+        if quick:
+            combos = [("simple", 8), ("simple", 1), ("simple", 33), ("linear", 5), ("mock", 6)]
+            n_events, n_hist, n_cfg = 4, 5, 10
+        else:
+            combos = [("simple", s) for s in (1, 2, 8, 33, 128)] + [("linear", s) for s in (1, 5, 64)] + [("mock", s) for s in (1, 6, 40)]
+            n_events, n_hist, n_cfg = 10, 40, 80
 
-    jobs = []      # (kind, cfg, script)
-    pools = {}
-    for problem, slots in combos:
-        pool = sorted(rng.sample(range(1, 400), n_events))
-        pools[(problem, slots)] = pool
-        for e in pool:
-            ab = mock_abort(e) if problem == "mock" else -1
-            jobs.append(("baseline", base_cfg(problem, slots), [(e, nprim(problem, e), ab)]))
+        jobs = []      # (kind, cfg, script)
+        pools = {}
+        for problem, slots in combos:
+            pool = sorted(rng.sample(range(1, 400), n_events))
+            pools[(problem, slots)] = pool
+            for e in pool:
+                ab = mock_abort(e) if problem == "mock" else -1
+                jobs.append(("baseline", base_cfg(problem, slots), [(e, nprim(problem, e), ab)]))
 
-    def rand_script(problem, pool, with_abort):
-        k = rng.choice([1, 2, 2, 3])
-        script = []
-        for _ in range(k):
-            e = rng.choice(pool)
-            if problem == "mock":
-                script.append((e, nprim(problem, e), mock_abort(e)))
-            elif with_abort and rng.random() < 0.4:
-                # an event that is aborted after a few steps, then state.reset()
-                script.append((rng.choice(pool + [401, 402]), rng.choice([1, 3, 6]), rng.choice([1, 2, 3, 5, 8, 13, 40])))
-            else:
-                script.append((e, nprim(problem, e), -1))
-        e = rng.choice(pool)
-        script.append((e, nprim(problem, e), mock_abort(e) if problem == "mock" else -1))
-        return script
-
-    for problem, slots in combos:
-        pool = pools[(problem, slots)]
-        # (ii)/(iii): histories with the plain configuration
-        for _ in range(n_hist):
-            jobs.append(("history", base_cfg(problem, slots), rand_script(problem, pool, True)))
-        # (iv): every re-indexing order, timing, checker, warm-up, on top of a history
-        cfgs = []
-        for o in ORDERS[1:]:
-            cfgs.append((o, rng.randint(0, 1), rng.randint(0, 1), rng.randint(0, 1)))
-        while len(cfgs) < n_cfg:
-            cfgs.append((rng.choice(ORDERS), rng.randint(0, 1), rng.randint(0, 1), rng.randint(0, 1)))
-        cfgs += [("none", 1, 1, 0), ("none", 0, 0, 0), ("none", 0, 1, 1)]
-        for o, tm, ck, wu in cfgs:
-            cfg = {"problem": problem, "slots": slots, "order": o, "timing": tm,
-                   "checker": 0 if problem == "mock" else ck, "warmup": wu}
-            jobs.append(("config", cfg, rand_script(problem, pool, rng.random() < 0.5)))
-
-    ctx.log("running %d harness processes" % len(jobs))
-    with ThreadPoolExecutor(max_workers=max(2, min(12, vlib.NCPU - 2))) as ex:
-        results = list(ex.map(lambda j: R.run(j[1], j[2]), jobs))
-
-    baselines = {}
-    nviol = 0
-
-    def report(kind, what, rep, **kw):
-        nonlocal nviol
-        nviol += 1
-        if nviol <= 6:
-            ctx.violation(kind, what, rep, **kw)
-
-    for (kind, cfg, script), (rc, out) in zip(jobs, results):
-        if kind != "baseline":
-            continue
-        evs = parse_output(out)
-        e = script[0][0]
-        if rc != 0 or len(evs) != 1 or evs[0]["X"]:
-            raise vlib.BuildError("baseline replay failed (rc=%d) for %r %r" % (rc, cfg, script), out[-2000:])
-        baselines[(cfg["problem"], cfg["slots"], e)] = evs[0]
-        ctx.count("baseline:%s" % cfg["problem"])
-
-    compared = 0
-    for (kind, cfg, script), (rc, out) in zip(jobs, results):
-        if kind == "baseline":
-            continue
-        evs = parse_output(out)
-        label = {"config": cfg, "script": ["E %d %d %d" % s for s in script],
-                 "command": "CELER_DISABLE_PARALLEL=1 %s %s" % (exe, " ".join(R.args(cfg, 1)))}
-        if rc != 0 or len(evs) != len(script) or any(ev["X"] for ev in evs):
-            report("run-failed", "replay run failed or threw under %s/%s (the plain run of the same events did not)" % (cfg["order"], kind),
-                   dict(label, rc=rc, output_tail=out[-1500:]))
-            continue
-        for pos, (ev, (e, npr, ab)) in enumerate(zip(evs, script)):
-            key = (cfg["problem"], cfg["slots"], e)
-            base = baselines.get(key)
-            hist = script[:pos]
-            ntr = len(ev["T"])
-            if ev["status"] == "done":
-                # observed hypotheses of reseed_rel for completed events
-                if ev["C"] != (0, cfg["slots"], 0, 0):
-                    report("end-state", "completed event leaves counters/status (initializers, vacancies, secondaries, non-inactive) = %r" % (ev["C"],),
-                           dict(label, event=e, position=pos))
-            if base is None or npr != nprim(cfg["problem"], e):
-                continue        # filler event (aborted one with its own size)
-            if ab >= 0 and cfg["problem"] != "mock":
-                # aborted event: its StepperResult prefix must match the full run
-                d = first_diff(ev["R"], base["R"][:len(ev["R"])])
-                if d:
-                    report("replay", "StepperResult sequence of an (aborted) event differs from the fresh run",
-                           dict(label, event=e, position=pos, step=d[0], got=d[1], fresh=d[2]))
-                continue
-            compared += 1
-            nontriv = (pos > 0 or cfg != base_cfg(cfg["problem"], cfg["slots"])) and ntr > 0
-            ctx.case((cfg["problem"], cfg["slots"], e, cfg["order"], cfg["timing"], cfg["checker"], cfg["warmup"], hist), nontrivial=nontriv)
-            ctx.count("order:%s" % cfg["order"])
-            ctx.count("problem:%s" % cfg["problem"])
-            ctx.count("history-len:%d" % pos)
-            if any(s[2] >= 0 for s in hist) and cfg["problem"] != "mock":
-                ctx.count("after-aborted-event+reset")
-            ctx.sample({"config": cfg, "script": label["script"], "event": e, "tracks": ntr,
-                        "steps": sum(n for n, _ in ev["T"].values()), "stepper_calls": len(ev["R"])})
-            if ev["R"] == base["R"] and ev["T"] == base["T"] and ev["status"] == base["status"]:
-                continue
-            # ---- a difference: get the full records of both runs
-            rc1, o1 = R.run(base_cfg(cfg["problem"], cfg["slots"]), [script[pos]], dump=1)
-            rc2, o2 = R.run(cfg, script, dump=1)
-            b1 = parse_output(o1)[0] if rc1 == 0 else None
-            e2 = parse_output(o2)
-            b2 = e2[pos] if rc2 == 0 and len(e2) > pos else None
-            detail = None
-            if b1 and b2:
-                d = first_diff(b2["S"], b1["S"])
-                if d:
-                    detail = {"record_index": d[0], "this_run": d[1], "fresh_run": d[2]}
+        def rand_script(problem, pool, with_abort):
+            k = rng.choice([1, 2, 2, 3])
+            script = []
+            for _ in range(k):
+                e = rng.choice(pool)
+                if problem == "mock":
+                    script.append((e, nprim(problem, e), mock_abort(e)))
+                elif with_abort and rng.random() < 0.4:
+                    # an event that is aborted after a few steps, then state.reset()
+                    script.append((rng.choice(pool + [401, 402]), rng.choice([1, 3, 6]), rng.choice([1, 2, 3, 5, 8, 13, 40])))
                 else:
-                    d = first_diff(b2["R"], b1["R"])
-                    detail = {"stepper_result_index": d[0], "this_run": d[1], "fresh_run": d[2]} if d else None
-            report("replay", "event %d of problem %s (%d slots) is not reproduced bit-exactly (order=%s timing=%d checker=%d warmup=%d, %d earlier events)"
-                   % (e, cfg["problem"], cfg["slots"], cfg["order"], cfg["timing"], cfg["checker"], cfg["warmup"], pos),
-                   dict(label, event=e, position=pos, first_difference=detail,
-                        fresh_command="printf 'E %d %d %d\\n' | CELER_DISABLE_PARALLEL=1 %s %s" % (
-                            script[pos] + (exe, " ".join(R.args(base_cfg(cfg["problem"], cfg["slots"]), 1))))))
-    ctx.log("compared %d event replays with their fresh-state baselines; %d differences" % (compared, nviol))
-    ctx.coverage["traces_validated_against_impl"] = compared
-    ctx.coverage["rule"] = ("case = (problem, slots, event, track order, timing, checker, warm-up, preceding script); compared: "
-                            "StepperResult sequence and per-track FNV digest over all StepSelection::all() fields of every step, "
-                            "against the same event on a fresh state with order=none; non-trivial = differs from the baseline "
-                            "configuration or has a history, and transported at least one track")
+                    script.append((e, nprim(problem, e), -1))
+            e = rng.choice(pool)
+            script.append((e, nprim(problem, e), mock_abort(e) if problem == "mock" else -1))
+            return script
+
+        for problem, slots in combos:
+            pool = pools[(problem, slots)]
+            # (ii)/(iii): histories with the plain configuration
+            for _ in range(n_hist):
+                jobs.append(("history", base_cfg(problem, slots), rand_script(problem, pool, True)))
+            # (iv): every re-indexing order, timing, checker, warm-up, on top of a history
+            cfgs = []
+            for o in ORDERS[1:]:
+                cfgs.append((o, rng.randint(0, 1), rng.randint(0, 1), rng.randint(0, 1)))
+            while len(cfgs) < n_cfg:
+                cfgs.append((rng.choice(ORDERS), rng.randint(0, 1), rng.randint(0, 1), rng.randint(0, 1)))
+            cfgs += [("none", 1, 1, 0), ("none", 0, 0, 0), ("none", 0, 1, 1)]
+            for o, tm, ck, wu in cfgs:
+                cfg = {"problem": problem, "slots": slots, "order": o, "timing": tm,
+                       "checker": 0 if problem == "mock" else ck, "warmup": wu}
+                jobs.append(("config", cfg, rand_script(problem, pool, rng.random() < 0.5)))
+
+        ctx.log("running %d harness processes" % len(jobs))
+        with ThreadPoolExecutor(max_workers=max(2, min(12, vlib.NCPU - 2))) as ex:
+            results = list(ex.map(lambda j: R.run(j[1], j[2]), jobs))
+
+        baselines = {}
+        nviol = 0
+
+        def report(kind, what, rep, **kw):
+            nonlocal nviol
+            nviol += 1
+            if nviol <= 6:
+                ctx.violation(kind, what, rep, **kw)
+
+        for (kind, cfg, script), (rc, out) in zip(jobs, results):
+            if kind != "baseline":
+                continue
+            evs = parse_output(out)
+            e = script[0][0]
+            if rc != 0 or len(evs) != 1 or evs[0]["X"]:
+                raise vlib.BuildError("baseline replay failed (rc=%d) for %r %r" % (rc, cfg, script), out[-2000:])
+            baselines[(cfg["problem"], cfg["slots"], e)] = evs[0]
+            ctx.count("baseline:%s" % cfg["problem"])
+
+        compared = 0
+        for (kind, cfg, script), (rc, out) in zip(jobs, results):
+            if kind == "baseline":
+                continue
+            evs = parse_output(out)
+            label = {"config": cfg, "script": ["E %d %d %d" % s for s in script],
+                     "command": "CELER_DISABLE_PARALLEL=1 %s %s" % (exe, " ".join(R.args(cfg, 1)))}
+            if rc != 0 or len(evs) != len(script) or any(ev["X"] for ev in evs):
+                report("run-failed", "replay run failed or threw under %s/%s (the plain run of the same events did not)" % (cfg["order"], kind),
+                       dict(label, rc=rc, output_tail=out[-1500:]))
+                continue
+            for pos, (ev, (e, npr, ab)) in enumerate(zip(evs, script)):
+                key = (cfg["problem"], cfg["slots"], e)
+                base = baselines.get(key)
+                hist = script[:pos]
+                ntr = len(ev["T"])
+                if ev["status"] == "done":
+                    # observed hypotheses of reseed_rel for completed events
+                    if ev["C"] != (0, cfg["slots"], 0, 0):
+                        report("end-state", "completed event leaves counters/status (initializers, vacancies, secondaries, non-inactive) = %r" % (ev["C"],),
+                               dict(label, event=e, position=pos))
+                if base is None or npr != nprim(cfg["problem"], e):
+                    continue        # filler event (aborted one with its own size)
+                if ab >= 0 and cfg["problem"] != "mock":
+                    # aborted event: its StepperResult prefix must match the full run
+                    d = first_diff(ev["R"], base["R"][:len(ev["R"])])
+                    if d:
+                        report("replay", "StepperResult sequence of an (aborted) event differs from the fresh run",
+                               dict(label, event=e, position=pos, step=d[0], got=d[1], fresh=d[2]))
+                    continue
+                compared += 1
+                nontriv = (pos > 0 or cfg != base_cfg(cfg["problem"], cfg["slots"])) and ntr > 0
+                ctx.case((cfg["problem"], cfg["slots"], e, cfg["order"], cfg["timing"], cfg["checker"], cfg["warmup"], hist), nontrivial=nontriv)
+                ctx.count("order:%s" % cfg["order"])
+                ctx.count("problem:%s" % cfg["problem"])
+                ctx.count("history-len:%d" % pos)
+                if any(s[2] >= 0 for s in hist) and cfg["problem"] != "mock":
+                    ctx.count("after-aborted-event+reset")
+                ctx.sample({"config": cfg, "script": label["script"], "event": e, "tracks": ntr,
+                            "steps": sum(n for n, _ in ev["T"].values()), "stepper_calls": len(ev["R"])})
+                if ev["R"] == base["R"] and ev["T"] == base["T"] and ev["status"] == base["status"]:
+                    continue
+                # ---- a difference: get the full records of both runs
+                rc1, o1 = R.run(base_cfg(cfg["problem"], cfg["slots"]), [script[pos]], dump=1)
+                rc2, o2 = R.run(cfg, script, dump=1)
+                b1 = parse_output(o1)[0] if rc1 == 0 else None
+                e2 = parse_output(o2)
+                b2 = e2[pos] if rc2 == 0 and len(e2) > pos else None
+                detail = None
+                if b1 and b2:
+                    d = first_diff(b2["S"], b1["S"])
+                    if d:
+                        detail = {"record_index": d[0], "this_run": d[1], "fresh_run": d[2]}
+                    else:
+                        d = first_diff(b2["R"], b1["R"])
+                        detail = {"stepper_result_index": d[0], "this_run": d[1], "fresh_run": d[2]} if d else None
+                report("replay", "event %d of problem %s (%d slots) is not reproduced bit-exactly (order=%s timing=%d checker=%d warmup=%d, %d earlier events)"
+                       % (e, cfg["problem"], cfg["slots"], cfg["order"], cfg["timing"], cfg["checker"], cfg["warmup"], pos),
+                       dict(label, event=e, position=pos, first_difference=detail,
+                            fresh_command="printf 'E %d %d %d\\n' | CELER_DISABLE_PARALLEL=1 %s %s" % (
+                                script[pos] + (exe, " ".join(R.args(base_cfg(cfg["problem"], cfg["slots"]), 1))))))
+        ctx.log("compared %d event replays with their fresh-state baselines; %d differences" % (compared, nviol))
+        ctx.coverage["traces_validated_against_impl"] = compared
+        ctx.coverage["rule"] = ("case = (problem, slots, event, track order, timing, checker, warm-up, preceding script); compared: "
+                                "StepperResult sequence and per-track FNV digest over all StepSelection::all() fields of every step, "
+                                "against the same event on a fresh state with order=none; non-trivial = differs from the baseline "
+                                "configuration or has a history, and transported at least one track")
+
+        return nviol
+
+    nviol = 0
+    harness_failure = None
+    try:
+        nviol = replays()
+    except vlib.BuildError as ex:
+        if proofs_ok:
+            raise
+        # the obligations are already broken: report THAT (with the offending
+        # fields) rather than the secondary harness failure
+        harness_failure = {"error": str(ex), "log_tail": ex.log[-1500:]}
+        ctx.broken_proof["replay_harness_failure"] = harness_failure
 
     # ---- 4. broken obligations without a dynamic counterexample ----------------
     if not proofs_ok and nviol == 0:
@@ -301,6 +317,11 @@ def run(ctx):
                 ", ".join("%s.%s" % tuple(u) for u in unclassified))
         elif failed_shapes:
             what = "source shape no longer recognised: %s" % failed_shapes[0]
+        elif ctx.broken_proof.get("slot_constructions_unreviewed"):
+            what = "explicit TrackSlotId construction(s) not in the reviewed list (thread->slot discipline): %r" % (
+                ctx.broken_proof["slot_constructions_unreviewed"],)
+        elif ctx.broken_proof.get("hand_lists_current") is False:
+            what = "a hand-justified list in coq/C06/ResetComplete.v names a state field that no longer exists"
         ctx.violation("proof-broken", what, ctx.broken_proof, no_input=True)
     elif not proofs_ok:
         ctx.notes.append("proof obligations also broken: %r" % (ctx.broken_proof.get("unclassified_state_fields"),))
